@@ -233,6 +233,11 @@ class World:
             return
         if isinstance(obj, unyt.unyt_array) and obj.size > 16:
             return
+        if any(obj is o for o in self.heap):
+            # an in-place call returns its target: storing it again would put
+            # one object in two slots, and the next in-place call on one slot
+            # would look like an unexplained change of the other
+            return
         meta = unit_snapshot(obj.units)
         if len(self.heap) < HEAP_MAX:
             self.heap.append(obj)
